@@ -36,6 +36,8 @@ const DOCS: &[(&str, usize)] = &[
 ];
 
 struct Run {
+    /// faults apply to event 0 only (single-root documents): later events must be clean
+    only_first: bool,
     doc: usize,
     table: BTreeMap<String, Ans>,
     responses: Vec<Obs>,
@@ -56,6 +58,9 @@ fn run_one(refs: &Schema, schema: &s1::S1, ch: &mut Chooser, ndocs: usize) -> Ru
         let r = execute(refs, &doc, None, &Default::default(), &mut w);
         (r, w.table)
     };
+    let single_root = doc.ops().next().unwrap().sel.len() == 1 && text.starts_with("subscription");
+    let only_first = single_root && events >= 2 && !table.is_empty() && ch.any("faults-only-in-event-0", 2) == 1;
+    let table: BTreeMap<String, Ans> = if only_first { table.into_iter().map(|(k, v)| (format!("{k}@0"), v)).collect() } else { table };
     let h = Handle::new();
     let mut wdv = Wd::new(table.clone());
     wdv.gates = Some(h.clone());
@@ -64,7 +69,7 @@ fn run_one(refs: &Schema, schema: &s1::S1, ch: &mut Chooser, ndocs: usize) -> Ru
     let req = Request::new(text).data(wd.clone());
     let cfg = RunCfg { policy: Policy::Eager, gate_class: Class::Exhaustive, preempt_class: Class::Dev(3), max_steps: 5000 };
     let r = sched::run(&h, ch, &cfg, schema.execute_stream(req).collect::<Vec<_>>(), &mut |_| {});
-    Run { doc: di, table, responses: r.output.map(|v| v.iter().map(obs_of).collect()).unwrap_or_default(), end: r.end, schedule: r.schedule, ref_data: reference.data.unwrap_or(J::Null), ref_errors: reference.errors }
+    Run { only_first, doc: di, table, responses: r.output.map(|v| v.iter().map(obs_of).collect()).unwrap_or_default(), end: r.end, schedule: r.schedule, ref_data: reference.data.unwrap_or(J::Null), ref_errors: reference.errors }
 }
 
 fn run(cx: &Cx) {
@@ -88,7 +93,7 @@ fn run(cx: &Cx) {
             let (text, events) = DOCS[r.doc];
             let root_nodes = agv_refgql::parse::parse_exec(text).unwrap().ops().next().unwrap().sel.len();
             let is_sub = text.starts_with("subscription");
-            let case = json!({"query": text, "world": table_json(&r.table), "schedule": r.schedule, "events_per_field": events});
+            let case = json!({"query": text, "world": table_json(&r.table), "schedule": r.schedule, "events_per_field": events, "faults_only_in_event_0": r.only_first});
             if r.end != End::Done {
                 return cx.violation(Violation::new("no-termination", format!("stream ended {:?} after {:?}", r.end, r.schedule), case).key("doc", text).key("root_nodes", root_nodes.to_string()));
             }
@@ -102,8 +107,19 @@ fn run(cx: &Cx) {
                 cx.nontrivial(agv_engine::h64(&(r.doc, &r.schedule, format!("{:?}", r.table))));
                 return;
             }
+            let clean = if r.only_first {
+                let w = agv_refgql::exec::TableWorld::default();
+                Some(execute(&refs, &doc, None, &Default::default(), &mut agv_refgql::exec::TableWorldRef { s: &refs, w: &w }))
+            } else {
+                None
+            };
             let mut seen: BTreeMap<String, usize> = BTreeMap::new();
             for (i, o) in r.responses.iter().enumerate() {
+                // single-root documents deliver their events in order: response i is event i
+                let (ref_errors, ref_data): (&Vec<ExecError>, J) = match (&clean, i) {
+                    (Some(c), i) if i > 0 => (&c.errors, c.data.clone().unwrap_or(J::Null)),
+                    _ => (&r.ref_errors, r.ref_data.clone()),
+                };
                 let data: J = serde_json::from_str(&o.data).unwrap_or(J::Null);
                 // which root field does this response belong to?
                 let key = match &data {
@@ -130,7 +146,7 @@ fn run(cx: &Cx) {
                     continue;
                 }
                 // own errors: exactly the reference's errors under this root key
-                let own: Vec<ExecError> = r.ref_errors.iter().filter(|e| matches!(e.path.first(), Some(Seg::Key(k)) if *k == key)).cloned().collect();
+                let own: Vec<ExecError> = ref_errors.iter().filter(|e| matches!(e.path.first(), Some(Seg::Key(k)) if *k == key)).cloned().collect();
                 let got: Vec<_> = o.errors.iter().map(|e| e.path.clone()).collect();
                 let (got_dedup, _) = {
                     // repeated response keys inside the event's selection: same known shape as elsewhere
@@ -143,7 +159,7 @@ fn run(cx: &Cx) {
                 }
                 // own data
                 let nulled_all = own.iter().any(|e| e.nulled.as_deref().map(|n| n.is_empty()).unwrap_or(false));
-                let exp = if nulled_all { J::Null } else { json!({ key.clone(): r.ref_data.get(&key).cloned().unwrap_or(J::Null) }) };
+                let exp = if nulled_all { J::Null } else { json!({ key.clone(): ref_data.get(&key).cloned().unwrap_or(J::Null) }) };
                 if data != exp {
                     cx.violation(Violation::new("event-data-differs", format!("root field {key}: expected {exp}\n {}", describe(i, o)), case.clone()).key("doc", text).key("root_nodes", root_nodes.to_string()));
                 }
@@ -166,7 +182,7 @@ fn run(cx: &Cx) {
         cx.machinery_error(d);
     }
     cx.add_states(DOCS.len() as u64);
-    cx.rule(&format!("case = (document, world, interleaving). {} documents (one root field × 2 events; two root fields incl. an aliased repeat; nested payloads; a query and a mutation through execute_stream) × every world with ≤ 2 failing child resolvers × EVERY order of opening the gates of event sources and child resolvers. Non-trivial = executions with ≥ 2 gate openings. traces = executions of the real execute_stream.", DOCS.len()));
+    cx.rule(&format!("case = (document, world, interleaving). {} documents (one root field × 2 events; two root fields incl. an aliased repeat; nested payloads; a query and a mutation through execute_stream) × every world with ≤ 2 failing child resolvers (for single-root documents also with the faults confined to the first event, so that a later event must be clean) × EVERY order of opening the gates of event sources and child resolvers. Non-trivial = executions with ≥ 2 gate openings. traces = executions of the real execute_stream.", DOCS.len()));
     cx.exhaustive(!st.capped);
     cx.extra("schedules", json!(st.executions));
     cx.assume("documents with several subscription root fields are spec-invalid but accepted and pinned by the library's own tests; the property quantifies over them explicitly");
